@@ -12,7 +12,7 @@
    cursor one column short.  The erase and sequence theorems therefore come as _partial
    (everything outside that trigger class, [erase_trigger] / [rv_edge_excl]) and _refuted. *)
 From Coq Require Import ZArith List Bool.
-From Tickit Require Import Csi CsiProofs VT TermPenDefs TermPenSpec XtermDefs XtermSpec XtermProofs XtermBytes TermApiDefs TermApiSpec TermApiProofs VTProofs FlushOnVT.
+From Tickit Require Import Csi CsiProofs VT TermPenDefs TermPenSpec XtermDefs XtermSpec XtermProofs XtermBytes TermApiDefs TermApiSpec TermApiProofs VTProofs FlushOnVT ScrollOnVT.
 Import ListNotations.
 Local Open Scope Z_scope.
 
@@ -244,6 +244,57 @@ Theorem C04_C09_start : forall lines cols d, 0 < lines -> 0 < cols ->
 Proof. exact sim_start. Qed.
 Print Assumptions C04_C09_start.
 
+(* ---- the scroll path end to end (for the window layer).
+   C09_scroll_exact: the exact cell-wise effect of every strategy of scrollrect: when the driver accepts,
+   each cell of the rectangle holds the cell (d, rt) further on, or -- where that lies outside the rectangle --
+   a blank (space, all attributes off, background = the current rendition's a_bg: VT erase semantics, which
+   is also what ICH/DCH/IL/DL/SU/SD insert); every other cell, the rendition, the modes and the (reset) margins
+   are as before and the cursor is on the screen; when it refuses, nothing is written.
+   C09_api_scroll_on_vt: the same for tickit_term_scrollrect through term.c, with the invariant SInv kept.
+   C09_win_scroll_on_vt: the window layer's terminal model (WinDefs.term_scroll: grid of glyphs, acceptance
+   oracle) with the xterm driver's own acceptance (xt_oracle) as its oracle is simulated by the VT run of the
+   driver's tokens: the result code is the oracle's answer, glyph_rel (window-layer grid = glyphs of the VT
+   screen, cell by cell on the screen) is preserved, together with vt_ok / SInv / rendition / modes, so the
+   lemma can be iterated and interleaved with C04_C09_paint_on_vt.
+   Hypotheses: vt_ok (margins reset, cursor on screen, DECAWM on), SInv (sizes agree, DECLRMM set when the
+   driver believes so -- true after start() by C09_start_state), and scroll_req_ok: a non-empty rectangle
+   inside the screen moved by less than its size in each direction (what window.c asks after clipping;
+   larger moves never reach the terminal).  No pen hypothesis is needed. *)
+Theorem C09_scroll_exact : forall v slrm r d rt, vt_ok v -> in_range (RScroll r d rt) v ->
+  (slrm = true -> md_lrmm (v_md v) = true) ->
+  scroll_res (fst (xt_scrollrect slrm (v_cols v) r d rt)) (snd (xt_scrollrect slrm (v_cols v) r d rt)) v r d rt.
+Proof. exact scroll_exact. Qed.
+Print Assumptions C09_scroll_exact.
+
+Theorem C09_api_scroll_on_vt : forall t v r d rt, vt_ok v -> SInv t v -> in_range (RScroll r d rt) v ->
+  exists ok ts,
+    xt_scrollrect (cap_slrm (x_caps (t_drv t))) (t_cols t) r d rt = (ok, ts) /\
+    api_step t (AScrollrect r d rt) = Some (t, ts, Some (if ok then 1 else 0)) /\
+    (if ok
+     then let v' := vt_run ts v in
+          vt_ok v' /\ SInv t v' /\ v_sgr v' = v_sgr v /\ v_md v' = v_md v /\
+          (forall y x, v_grid v' y x = shifted_grid v r d rt y x)
+     else ts = []).
+Proof. exact api_scroll_on_vt. Qed.
+Print Assumptions C09_api_scroll_on_vt.
+
+Theorem C09_win_scroll_on_vt : forall t v tm r d rt,
+  vt_ok v -> SInv t v -> glyph_rel tm v ->
+  Tickit.WinDefs.t_oracle tm = xt_oracle (cap_slrm (x_caps (t_drv t))) ->
+  scroll_req_ok tm r d rt ->
+  exists ts,
+    api_step t (AScrollrect (conv r) d rt) =
+      Some (t, ts, Some (if snd (Tickit.WinDefs.term_scroll tm r d rt) then 1 else 0)) /\
+    (snd (Tickit.WinDefs.term_scroll tm r d rt) = false -> ts = []) /\
+    vt_ok (vt_run ts v) /\ SInv t (vt_run ts v) /\
+    v_sgr (vt_run ts v) = v_sgr v /\ v_md (vt_run ts v) = v_md v /\
+    glyph_rel (fst (Tickit.WinDefs.term_scroll tm r d rt)) (vt_run ts v) /\
+    Tickit.WinDefs.t_oracle (fst (Tickit.WinDefs.term_scroll tm r d rt)) = Tickit.WinDefs.t_oracle tm /\
+    (snd (Tickit.WinDefs.term_scroll tm r d rt) = true ->
+     forall y x, v_grid (vt_run ts v) y x = shifted_grid v (conv r) d rt y x).
+Proof. exact win_scroll_on_vt. Qed.
+Print Assumptions C09_win_scroll_on_vt.
+
 (* non-vacuity: a 4x5 patterned screen, a DECSLRM-capable driver; scrolling the 2x3 rectangle
    at (1,1) by (1,-1) is in range, succeeds with a non-empty token list, and the cell at (1,2)
    afterwards is the one that was at (2,1) *)
@@ -255,3 +306,17 @@ Example C09_nonvacuous :
   length (snd (xt_scrollrect true 5 r 1 (-1))) = 7%nat /\
   c_glyph (v_grid (vt_run (snd (xt_scrollrect true 5 r 1 (-1))) v) 1 2) = c_glyph (v_grid v 2 1).
 Proof. vm_compute. repeat split; reflexivity. Qed.
+
+(* non-vacuity of C09_win_scroll_on_vt: its hypotheses hold for a DECSLRM-capable driver after start(),
+   the request is accepted, a vacated cell becomes a blank and a kept one the shifted cell *)
+Example C09_win_scroll_nonvacuous :
+  let v := vt_run xt_start (vt_init 4 5) in
+  let t := mkTerm slrm_drv true empty_pen 4 5 in
+  let tm := Tickit.WinDefs.term_set_grid (Tickit.WinDefs.term_new 4 5 (xt_oracle (cap_slrm (x_caps slrm_drv))))
+                             (fun q => c_glyph (v_grid v (fst q) (snd q))) in
+  let r := Tickit.RectDefs.mkRect 1 1 2 3 in
+  vt_ok v /\ SInv t v /\ glyph_rel tm v /\ scroll_req_ok tm r 1 (-1) /\
+  snd (Tickit.WinDefs.term_scroll tm r 1 (-1)) = true /\
+  shifted_grid v (conv r) 1 (-1) 2 1 = blank_cell (v_sgr v) /\
+  shifted_grid v (conv r) 1 (-1) 1 2 = v_grid v 2 1.
+Proof. exact win_scroll_example. Qed.
